@@ -27,7 +27,7 @@ m = {
     "setup_cmd": "./tools/build.sh",
     "hooks": {
         "guard": "verif",
-        "enable": "go build -tags verif (harness module with replace => /repo)",
+        "enable": "go build -tags verif (tv_harness module with replace => /repo; the other harnesses need no hooks)",
         "baseline_off_cmd": "cd /repo && go test -vet=off -count=1 ./...",
         "source_commits": hooks.get("source_commits", []),
         "add_only": True,
